@@ -69,6 +69,16 @@ fn loosely_matches_at(rng: &mut ChaCha8Rng, s: u128, v: &[f64]) -> Option<&'stat
     if r0.is_finite() && r0 != 0.0 && v.iter().zip(&z).all(|(a, b)| ((a / b) - r0).abs() <= 1e-9 * r0.abs()) {
         return Some("scaled");
     }
+    // one affine map of the samples (e.g. a shifted mean): fitted on two coordinates, confirmed on all others
+    if v.len() >= 3 && z[0] != z[1] {
+        let a = (v[0] - v[1]) / (z[0] - z[1]);
+        let b = v[0] - a * z[0];
+        if a.is_finite() && b.is_finite() && a != 0.0
+            && v.iter().zip(&z).all(|(x, y)| (x - (a * y + b)).abs() <= 1e-9 * (1.0 + x.abs()))
+        {
+            return Some("affine");
+        }
+    }
     if v.len() >= 24 && v.iter().zip(&z).all(|(a, b)| a / b > 0.0) {
         return Some("rescaled");
     }
